@@ -228,7 +228,8 @@ def check_sinks(ctx, rep, rule='G-sinks'):
                     src = show(noepoch(v[1]))
                     ok = 'order_events' in src or 'index' in src
                     # the element must come from the vector returned by order_events
-                    ok = any(x[0] == 'call' and x[1].endswith('order_events') for x in sym.walk(v))
+                    from rules.oprules import tree
+                    ok = any(x[0] == 'call' and x[1].endswith('order_events') for x in tree(v, p))
                 if not ok:
                     bad.add(show(noepoch(v))[:100])
     rep.ob(rule, 'contour-points-are-event-points', not bad,
